@@ -805,7 +805,9 @@ class Engine:
         diverges = t.get('target') is None and t['k'] == 'call'
         pure = name in PURE_NAMES and not diverges
         if pure:
-            ret = ('call', path, tuple(args), None, st.epoch)
+            # a pure callee only reads what its reference arguments point to: name the result by those values,
+            # not by the temporaries that happen to hold them
+            ret = ('call', path, self.snap(st, args), None, st.epoch)
         else:
             ret = ('call', path, tuple(args), st.fresh())
             st.epoch += 1
@@ -1209,7 +1211,7 @@ def _cmp_model(op):
             t = t['t']
         if t.get('k') == 'prim' and t['name'] in ('usize', 'u8', 'u16', 'u32', 'u64', 'u128', 'isize', 'i8', 'i16', 'i32', 'i64', 'i128', 'bool', 'char'):
             return k(st, E.binop(op, x, y))
-        ret = ('call', f['path'], tuple(a), None, st.epoch)
+        ret = ('call', f['path'], E.snap(st, a), None, st.epoch)
         e['ret'] = ret
         e['modelled'] = False
         # a crate-local PartialEq::eq (derived or hand written) is walked inline when asked for;
@@ -1271,7 +1273,7 @@ def _arith_model(op):
                 return k(st, ('c', (~vals[0][1]) & MASK.get(prim, (1 << 64) - 1)) if vals[0][0] == 'c' and prim != 'bool' else (E.negate(vals[0]) if prim == 'bool' else ('un', 'BitNot', vals[0], prim)))
             if len(vals) == 2:
                 return k(st, E.binop(op, vals[0], vals[1], prim))
-        ret = ('call', f['path'], tuple(a), None, st.epoch)
+        ret = ('call', f['path'], E.snap(st, a), None, st.epoch)
         e['ret'] = ret
         e['modelled'] = False
         k(st, ret)
@@ -1288,7 +1290,7 @@ def _checked(op):
         x, y = a[0], a[1]
         if op == 'Sub':
             return E.fork_bool(st, E.binop('Lt', x, y), lambda s: k(s, NONE), lambda s: k(s, SOME(E.binop('Sub', x, y))))
-        ret = ('call', f['path'], tuple(a), None, st.epoch)
+        ret = ('call', f['path'], E.snap(st, a), None, st.epoch)
         e['ret'] = ret
         k(st, ret)
     return m
